@@ -67,7 +67,10 @@ impl TypeDependencyGraph {
         let mut visited = HashSet::new();
         let mut visiting = HashSet::new();
 
-        for type_name in types {
+        // Visit in name order so the result does not depend on HashSet iteration order
+        let mut type_names: Vec<&String> = types.iter().collect();
+        type_names.sort();
+        for type_name in type_names {
             if !visited.contains(type_name) {
                 self.topological_visit(type_name, &mut sorted, &mut visited, &mut visiting);
             }
@@ -101,6 +104,8 @@ impl TypeDependencyGraph {
 
         // Visit dependencies first
         if let Some(deps) = self.dependencies.get(type_name) {
+            let mut deps: Vec<&String> = deps.iter().collect();
+            deps.sort();
             for dep in deps {
                 self.topological_visit(dep, sorted, visited, visiting);
             }
